@@ -143,3 +143,14 @@ Example writer_row_instance : row_ok (mkRow 15 0 0 16 (map Ch [72; 105; 32; 116;
 Proof.
   apply writer_row_ok; [lia|left; reflexivity|vm_compute; reflexivity|discriminate|cbn [hd]; lia|cbn [last]; lia|cbn [length]; lia].
 Qed.
+
+(* audit (wave 7): the remaining hypotheses of popon_refines_608_inline on the instance exw_ws *)
+Example exw_event_hyps : exists evs spans,
+  res_map (pseg_event true 0) (wexpand exw_ws) = Ok evs /\ positive evs /\ after_show None evs /\
+  expected_with join_threshold evs = Ok spans.
+Proof.
+  eexists. eexists. split; [vm_compute; reflexivity|]. split; [|split].
+  - intros e H. repeat (destruct H as [<-|H]; [vm_compute; reflexivity|]). destruct H.
+  - cbn [after_show ev_time]. repeat split; try exact I; vm_compute; reflexivity.
+  - vm_compute. reflexivity.
+Qed.
